@@ -1,6 +1,6 @@
 import OPM.Lemmas.CmdMgrFrame
 /-!
-The object invariant `Core` of the M2 model (instances, their callbacks, their owner requests) and the lemmas
+The object invariant `Core` of the M2 model (initialised instances, their callbacks, the requests that hold them) and the lemmas
 about finalizing an instance.
 -/
 namespace OPM.CmdMgr
@@ -83,8 +83,8 @@ structure Core (s : State) : Prop where
   serials : s.objs.map (·.serial) = List.range s.objs.length
   ids : (s.executing.map (·.id)).Nodup
   live : ∀ o ∈ s.objs, o.inMap = true →
-    o.finalized = false ∧ o.initialized = true ∧ o.iters ≠ 0 ∧
-    ∃ r ∈ s.executing, r.id = o.owner ∧ r.name = .uod o.name ∧ r.id ∉ s.done
+    o.finalized = false ∧ o.initialized = true ∧
+    ∃ r ∈ s.executing, r.name = .uod o.name ∧ r.bad = false ∧ r.id ∉ s.done
   dead : ∀ o ∈ s.objs, o.inMap = false → o.finalized = true
   excl : ∀ o ∈ s.objs, ∀ o' ∈ s.objs, o.inMap = true → o'.inMap = true →
     conflict s.cfg o.name o'.name = true → o.serial = o'.serial
@@ -111,7 +111,7 @@ theorem Core.update {s s' : State} (h : Core s) (f : Cmd → Cmd) (evs : List Ev
     (hres : ∀ o ∈ s.objs, (f o).inMap = true → o.inMap = true)
     (hlive : ∀ o ∈ s.objs, (f o).inMap = true →
       (f o).finalized = false ∧ (f o).initialized = true ∧
-      (f o).iters ≠ 0 ∧ ∃ r ∈ s.executing, r.id = (f o).owner ∧ r.name = .uod o.name ∧ r.id ∉ s'.done)
+      ∃ r ∈ s.executing, r.name = .uod o.name ∧ r.bad = false ∧ r.id ∉ s'.done)
     (hdead : ∀ o ∈ s.objs, (f o).inMap = false → (f o).finalized = true)
     (htrace : ∀ o ∈ s.objs, traceOf (s.events ++ evs) o.serial = expected (f o))
     (hevb : ∀ e ∈ evs, e.serial < s.objs.length) : Core s' := by
@@ -124,10 +124,10 @@ theorem Core.update {s s' : State} (h : Core s) (f : Cmd → Cmd) (evs : List Ev
   · intro o' ho' hm
     rw [hobjs] at ho'
     obtain ⟨o, ho, rfl⟩ := List.mem_map.mp ho'
-    obtain ⟨a, d, e, r, hr, h1, h2, h3⟩ := hlive o ho hm
-    refine ⟨a, d, e, r, ?_, h1, ?_, h3⟩
+    obtain ⟨a, d, r, hr, h1, h2, h3⟩ := hlive o ho hm
+    refine ⟨a, d, r, ?_, ?_, h2, h3⟩
     · rw [hex]; exact hr
-    · rw [(hf o).2]; exact h2
+    · rw [(hf o).2]; exact h1
   · intro o' ho' hm
     rw [hobjs] at ho'
     obtain ⟨o, ho, rfl⟩ := List.mem_map.mp ho'
@@ -154,12 +154,28 @@ theorem Core.update {s s' : State} (h : Core s) (f : Cmd → Cmd) (evs : List Ev
 /-- Only `done` / tracking / lifecycle fields changed. -/
 theorem Core.congr {s s' : State} (h : Core s) (hobjs : s'.objs = s.objs) (hev : s'.events = s.events)
     (hex : s'.executing = s.executing) (hcfg : s'.cfg = s.cfg)
-    (hdone : ∀ o ∈ s.objs, o.inMap = true → o.owner ∉ s'.done) : Core s' := by
+    (hdone : ∀ r ∈ s.executing, r.isUod = true → r.id ∈ s'.done → r.id ∈ s.done) : Core s' := by
   refine h.update id [] (by simp [hobjs]) (by simp [hev]) hex hcfg (by simp) (by simp) ?_ (by simpa using h.dead)
     (by simpa using h.trace) (by simp)
   intro o ho hm
-  obtain ⟨a, d, e, r, hr, h1, h2, _⟩ := h.live o ho hm
-  exact ⟨a, d, e, r, hr, h1, h2, by rw [h1]; exact hdone o ho hm⟩
+  obtain ⟨a, d, r, hr, h1, h2, h3⟩ := h.live o ho hm
+  exact ⟨a, d, r, hr, h1, h2, fun hd => h3 (hdone r hr (by simp [Req.isUod, h1]) hd)⟩
+
+/-- …also when a request that holds no instance became done. -/
+theorem Core.congr_done {s s' : State} (h : Core s) (hobjs : s'.objs = s.objs) (hev : s'.events = s.events)
+    (hex : s'.executing = s.executing) (hcfg : s'.cfg = s.cfg) (q : Req) (hq : q ∈ s.executing)
+    (hnone : ∀ o ∈ s.objs, o.inMap = true → q.name = .uod o.name → q.bad = true)
+    (hdone : ∀ i, i ∈ s'.done → i ∈ s.done ∨ i = q.id) : Core s' := by
+  refine h.update id [] (by simp [hobjs]) (by simp [hev]) hex hcfg (by simp) (by simp) ?_ (by simpa using h.dead)
+    (by simpa using h.trace) (by simp)
+  intro o ho hm
+  obtain ⟨a, d, r, hr, h1, h2, h3⟩ := h.live o ho hm
+  refine ⟨a, d, r, hr, h1, h2, fun hd => ?_⟩
+  rcases hdone _ hd with hd | e
+  · exact h3 hd
+  · have : r = q := req_id_inj h.ids hr hq e
+    subst this
+    rw [hnone o ho hm h1] at h2; cases h2
 
 
 /-! ### `expected` under flag changes -/
@@ -242,8 +258,8 @@ theorem Core.killObj {s s2 : State} (h : Core s) {c : Cmd} (b : Bool)
     · intro o ho hmo
       obtain ⟨_, hfo⟩ := hkeep o ho hmo
       rw [hfo] at hmo ⊢
-      obtain ⟨a1, a4, a5, r', hr', h1, h2, h3⟩ := h.live o ho hmo
-      exact ⟨a1, a4, a5, r', hr', h1, h2, by simpa [hdone] using h3⟩
+      obtain ⟨a1, a4, r', hr', h1, h2, h3⟩ := h.live o ho hmo
+      exact ⟨a1, a4, r', hr', h1, h2, by simpa [hdone] using h3⟩
     · intro o ho hmo
       by_cases hs : o.serial = c.serial
       · simp only [finF, hs, beq_self_eq_true, if_true]
@@ -290,20 +306,71 @@ theorem Core.kill {s s2 : State} (h : Core s) {c : Cmd} {r : Req} (b : Bool)
     (hcfg : s2.cfg = s.cfg) :
     Core (finalizeCommand s2 r c) := by
   obtain ⟨hk, hrest⟩ := h.killObj b hc hm hobjs hev hex hdone hcfg
-  apply hk.congr (by simp [finalizeCommand]) (by simp [finalizeCommand]) (by simp [finalizeCommand])
-    (by simp [finalizeCommand])
-  intro o ho hmo
-  obtain ⟨hos, hne⟩ := hrest o ho hmo
-  obtain ⟨_, _, _, r', hr', h1, h2, h3⟩ := h.live o hos hmo
-  simp only [finalizeCommand]
-  rw [markDone_done_mem]
-  simp only [finalizeObj_done, hdone]
-  rintro (hd | ⟨e, _⟩)
-  · exact h3 (h1 ▸ hd)
-  · have : r' = r := req_id_inj h.ids hr' hr (by rw [h1, e])
-    subst this
-    rw [hrn] at h2
-    injection h2 with h2
-    exact hne h2.symm
+  -- `r` is the only request that becomes done; it holds none of the remaining instances (their names differ)
+  have hr2 : r ∈ (finalizeObj s2 c).executing := by simp [hex, hr]
+  apply hk.congr_done (by simp [finalizeCommand]) (by simp [finalizeCommand]) (by simp [finalizeCommand])
+    (by simp [finalizeCommand]) r hr2
+  · intro o ho hmo hn
+    obtain ⟨_, hne⟩ := hrest o ho hmo
+    rw [hrn] at hn
+    injection hn with hn
+    exact absurd hn.symm hne
+  · intro i hi
+    simp only [finalizeCommand] at hi
+    rw [markDone_done_mem] at hi
+    rcases hi with hi | ⟨e, _⟩
+    · exact Or.inl hi
+    · exact Or.inr e
+
+/-- An instance that was never initialised is finalized (its only callback) and released. -/
+theorem Core.appendDead {s s' : State} (h : Core s) {c : Cmd}
+    (hobjs : s'.objs = s.objs ++ [c]) (hser : c.serial = s.objs.length) (hm : c.inMap = false)
+    (hfin : c.finalized = true) (hini : c.initialized = false) (hit : c.iters = 0)
+    (hev : s'.events = s.events ++ [.final c.serial]) (hex : s'.executing = s.executing)
+    (hcfg : s'.cfg = s.cfg) (hdone : s'.done = s.done) : Core s' := by
+  have hlt : ∀ o ∈ s.objs, o.serial < s.objs.length := fun o ho => serial_lt h.serials ho
+  refine ⟨?_, by rw [hex]; exact h.ids, ?_, ?_, ?_, ?_, ?_⟩
+  · rw [hobjs]; simp [h.serials, hser, List.range_succ]
+  · intro o ho hmo
+    rw [hobjs] at ho
+    rcases List.mem_append.mp ho with ho | ho
+    · obtain ⟨a, d, q, hq, h1, h2, h3⟩ := h.live o ho hmo
+      exact ⟨a, d, q, by rw [hex]; exact hq, h1, h2, by rw [hdone]; exact h3⟩
+    · simp at ho; subst ho; rw [hm] at hmo; cases hmo
+  · intro o ho hmo
+    rw [hobjs] at ho
+    rcases List.mem_append.mp ho with ho | ho
+    · exact h.dead o ho hmo
+    · simp at ho; subst ho; exact hfin
+  · intro a ha b hb ma mb hc
+    rw [hobjs] at ha hb
+    rw [hcfg] at hc
+    rcases List.mem_append.mp ha with ha1 | ha2 <;> rcases List.mem_append.mp hb with hb1 | hb2
+    · exact h.excl a ha1 b hb1 ma mb hc
+    · simp at hb2; subst hb2; rw [hm] at mb; cases mb
+    · simp at ha2; subst ha2; rw [hm] at ma; cases ma
+    · simp at ha2 hb2; subst ha2; subst hb2; rfl
+  · intro o ho
+    rw [hobjs] at ho
+    rw [hev, traceOf_append]
+    rcases List.mem_append.mp ho with ho | ho
+    · rw [h.trace o ho]
+      have : o.serial ≠ c.serial := by have := hlt o ho; omega
+      simp [traceOf, Ev.serial, Ne.symm this]
+    · simp at ho; subst ho
+      have : traceOf s.events o.serial = [] := by
+        simp only [traceOf, List.filter_eq_nil_iff]
+        intro e he
+        have := h.evBound e he
+        simp; omega
+      rw [this]
+      simp [traceOf, Ev.serial, expected, hini, hit, hfin]
+  · intro e he
+    rw [hev] at he
+    rw [hobjs]
+    simp only [List.length_append, List.length_cons, List.length_nil]
+    rcases List.mem_append.mp he with he | he
+    · have := h.evBound e he; omega
+    · simp at he; subst he; simp [Ev.serial, hser]
 
 end OPM.CmdMgr
